@@ -18,7 +18,7 @@ Ltac table_cases H :=
 
 (* nelua_shl_<T>(T a, signed(T) b): logical shift of the representation of a, the other way for
    negative counts, 0 for |b| >= bits *)
-Lemma shl_helper_correct t f a b : In (t, f) shl_table -> in_range t a -> in_range (to_signed t) b ->
+Lemma shl_helper_correct t f a b : In (t, f) shl_table -> in_range t a -> in_range I64 b ->
   ccall Gnu f [a; b] = Oval (wrap t (exact_shl t a b)).
 Proof.
   intros H Ha Hb. apply in_rangeb_spec in Ha, Hb. unfold exact_shl.
@@ -27,7 +27,7 @@ Proof.
   all: cfinish.
 Qed.
 
-Lemma shr_helper_correct t f a b : In (t, f) shr_table -> wf_ity t -> in_range t a -> in_range (to_signed t) b ->
+Lemma shr_helper_correct t f a b : In (t, f) shr_table -> wf_ity t -> in_range t a -> in_range I64 b ->
   ccall Gnu f [a; b] = Oval (wrap t (exact_shr t a b)).
 Proof.
   intros H Ht Ha Hb. apply in_rangeb_spec in Ha, Hb. unfold exact_shr.
@@ -36,7 +36,7 @@ Proof.
   all: cfinish.
 Qed.
 
-Lemma asr_helper_correct t f a b : In (t, f) asr_table -> in_range t a -> in_range (to_signed t) b ->
+Lemma asr_helper_correct t f a b : In (t, f) asr_table -> in_range t a -> in_range I64 b ->
   ccall Gnu f [a; b] = Oval (wrap t (exact_asr t a b)).
 Proof.
   intros H Ha Hb. apply in_rangeb_spec in Ha, Hb. unfold exact_asr.
